@@ -82,14 +82,30 @@ def run_group(g):
 
 def run_group_inner(g):
     kind, s, n, f = g["kind"], g.get("signed"), g.get("n_bits"), g.get("n_frac")
+    # The format parameters of the converter UNDER TEST may be handed over as numpy scalars (S, N, F); the
+    # converters used as the reference in the same group always get plain Python values (s, n, f).
+    pt = g.get("ptypes") or {}
+    S = getattr(np, pt["signed"])(s) if pt.get("signed") else s
+    N = getattr(np, pt["n_bits"])(n) if pt.get("n_bits") else n
+    F = getattr(np, pt["n_frac"])(f) if pt.get("n_frac") else f
+    # ... and an array converter may be used after a pickle round trip / copy.copy / copy.deepcopy
+    def recopy(c):
+        how = g.get("copy")
+        if how == "pickle":
+            import pickle
+            return pickle.loads(pickle.dumps(c))
+        if how in ("copy", "deepcopy"):
+            import copy
+            return getattr(copy, how)(c)
+        return c
     # scalar inputs may be handed over as numpy scalars: floats of a given type, words of a given integer type
     ftype = getattr(np, g["scalar_type"]) if g.get("scalar_type") else float
     wtype = getattr(np, g["word_dtype"]) if g.get("word_dtype") else int
     if kind == "fp":
-        conv, err = construct(tc.float_to_fp, None, s, n, f)
+        conv, err = construct(tc.float_to_fp, None, S, N, F)
         return [err if err else guarded(lambda: int(conv(ftype(b2f(b))))) for b in g["xs"]]
     if kind == "back":
-        back, e1 = construct(tc.fp_to_float, None, f)
+        back, e1 = construct(tc.fp_to_float, None, F)
         conv, e2 = construct(tc.float_to_fp, None, s, n, f)
         out = []
         for v in g["vs"]:
@@ -103,12 +119,12 @@ def run_group_inner(g):
                 out.append([f2b(x), e2 if e2 else guarded(lambda: int(conv(x)))])
         return out
     if kind == "fix":
-        old, e1 = construct(tc.float_to_fix, "fail0", s, n, f)
+        old, e1 = construct(tc.float_to_fix, "fail0", S, N, F)
         new, e2 = construct(tc.float_to_fp, None, s, n, f)
         return [[e1 if e1 else guarded(lambda: int(old(ftype(b2f(b))))),
                  e2 if e2 else guarded(lambda: int(new(ftype(b2f(b)))))] for b in g["xs"]]
     if kind == "unfix":
-        old, e1 = construct(tc.fix_to_float, "fail0", s, n, f)
+        old, e1 = construct(tc.fix_to_float, "fail0", S, N, F)
         new, e2 = construct(tc.fp_to_float, None, f)
         out = []
         for w, v in g["wv"]:
@@ -117,7 +133,7 @@ def run_group_inner(g):
             out.append([a if isinstance(a, str) else f2b(a), b if isinstance(b, str) else f2b(b)])
         return out
     if kind == "np":
-        conv, err = construct(tc.NumpyFloatToFixConverter, "fail1", s, n, f)
+        conv, err = construct(lambda *a: recopy(tc.NumpyFloatToFixConverter(*a)), "fail1", S, N, F)
         sc, e2 = construct(tc.float_to_fp, None, s, n, f)
         xs = [b2f(b) for b in g["xs"]]
         scal = [e2 if e2 else guarded(lambda: int(sc(x))) for x in xs]
@@ -145,7 +161,7 @@ def run_group_inner(g):
                               input_unchanged=snapshot(arr) == before))
         return steps
     if kind == "npback":
-        conv = tc.NumpyFixToFloatConverter(f)
+        conv = recopy(tc.NumpyFixToFloatConverter(F))
         sc, e2 = construct(tc.fp_to_float, None, f)
         dtype = getattr(np, g["dtype"])
         scal = []
